@@ -154,6 +154,9 @@ func (e *specEnv) resolveType(s string) types.Type {
 func (e *specEnv) typeOfExpr(x ast.Expr) types.Type {
 	switch x := x.(type) {
 	case *ast.Ident:
+		if t, ok := e.tr.typeVars[x.Name]; ok {
+			return t
+		}
 		if o := e.lookupObj(x.Name); o != nil {
 			if tn, ok := o.(*types.TypeName); ok {
 				return tn.Type()
@@ -222,6 +225,9 @@ func (e *specEnv) isTypeExpr(x ast.Expr) (types.Type, bool) {
 	case *ast.Ident:
 		if _, shadow := e.names[x.Name]; shadow {
 			return nil, false
+		}
+		if t, ok := e.tr.typeVars[x.Name]; ok {
+			return t, true
 		}
 		if o := e.lookupObj(x.Name); o != nil {
 			if tn, ok := o.(*types.TypeName); ok {
